@@ -254,6 +254,8 @@ def lis_sources(draw, max_frames):
                 for k, d in enumerate(payload['dsbs']):
                     if (k or payload['indirect']) and d['mnem'].endswith(b' ') and d['mnem'].strip() and draw(st.booleans()):
                         d['mnem'] = d['mnem'].rstrip(b' ').ljust(4, b'\x00')
+                        if draw(st.integers(0, 2)) == 0:     # ... or written to the right of the field: padding in front
+                            d['mnem'] = draw(st.sampled_from([b' ', b'\x00'])) + d['mnem'][:3]
     return m
 
 
